@@ -43,3 +43,28 @@ HUFFMAN_DECOMPRESS_LOOPS = {
         "outer loop consumes one input byte per iteration (slice iterator, leaves on None); the inner bit loop "
         "runs 8 times; every leaf either exits (EOF) or consumes one output slot (C07 R3)",
 }
+
+# common::slice::{transmute, relative_size_of_mult} are generic over <T, U>; their sites are keyed in the
+# generic body, the reasons name the instantiations reachable from each property's entry points
+# (serverbrowse: <u8, Addr5Packed|Addr6Packed> after `len - len % size_of`; gamenet: <Obj, i32> on repr(C)
+# all-i32 structs).  The datafile instantiations are decided separately by C16 (type-instantiated precondition).
+COMMON_SLICE = {
+    'libtw2_common::slice::relative_size_of_mult | overflow | Mul | 0':
+        "mult is the length of an existing &[T]: len * size_of::<T>() is the byte size of an allocation (<= isize::MAX)",
+    'libtw2_common::slice::relative_size_of_mult | overflow | Mul | 1':
+        "same product as the line above",
+    'libtw2_common::slice::transmute | divzero | rem | 0':
+        "align_of::<U>() is never 0",
+    'libtw2_common::slice::transmute | panic-call | assert! | 0':
+        "alignment compatibility is a compile-time property of the instantiation: targets used are align-1 packed "
+        "byte structs or i32 from i32-aligned sources",
+    'libtw2_common::slice::transmute | precondition | libtw2_common::slice::relative_size_of_mult | 0':
+        "callers pass slices whose byte length is a multiple of size_of::<U>() (len - len % size, or whole repr(C) structs)",
+}
+
+PACKER_READ = {
+    'libtw2_packer::read_string | slice-index | RangeTo | 0':
+        "i is the enumerate index of an element yielded by the iterator whose as_slice() was taken before the loop: i < slice.len()",
+    'libtw2_packer::read_int | overflow | Add | 0':
+        "len counts the bytes of one varint: at most 5 (the loop runs at most 4 times)",
+}
